@@ -173,7 +173,7 @@ impl Property for C12 {
         proptest::collection::vec(any::<u16>(), 0..(max_ops * 8 + 8))
             .prop_map(move |genes| {
                 let mut g = Genes::new(genes);
-                let cfg = HistCfg { max_ops, safe_strings: false, w_struct: 8, w_attr: 2, w_chardata: 2, w_create: 5, huge_offsets: false, ..Default::default() };
+                let cfg = HistCfg { max_ops, safe_strings: false, w_struct: 8, w_attr: 2, w_chardata: 2, w_create: 5, huge_offsets: false, w_compound: 4, ..Default::default() };
                 hist::gen_history(&mut g, &cfg)
             })
             .boxed()
